@@ -367,4 +367,7 @@ FRAGMENTS = [
     "q", "q 1,1", "Q 1,1 2", "m", "M", "m 1", "M 1", "t", "T", "s", "S 1,1", "a", "A", "A1,1 0 0 1 5,5", "a1,1 0 0 1 5,5",
     "l 1,1", "L 1,1", "c 1,1 2,2 3,3", "q 1,1 2,2", "z z", "z 5", "Z 5,5", "L z", "C z", "C 1,1 z", "A 1,1 0 0 1 z",
     "h z", "V z", "h 1 2 3", "v-1-2", "t z", "M z", "m z",
+    # a leading close leaves a non-empty path without a current point; inline closes then ask for the closing point
+    "z L 5,5 Q 1,1 z", "z L5,5 C1,1 2,2 z", "Z l1,1 T z", "z L1,1 A 5,5 0 0 1 z", "z L 5,5 S 1,1 z", "z m 5,5 l 1,1", "Z l 3,4",
+    "z z L1,1 q 1,1 z", "z L1,1 z L z", "z H5", "z L1,1 H5 V z",
 ]
